@@ -1,0 +1,14 @@
+//go:build verif
+
+// Verification hooks (build tag "verif"), add-only: access to the compiled
+// function of a template or program for the /verif harness.
+
+package scriggo
+
+import "github.com/open2b/scriggo/internal/runtime"
+
+// VerifFunction returns the compiled main function of the template.
+func (t *Template) VerifFunction() *runtime.Function { return t.fn }
+
+// VerifFunction returns the compiled main function of the program.
+func (p *Program) VerifFunction() *runtime.Function { return p.fn }
